@@ -195,7 +195,7 @@ def fam_C02(rng, tier):
                      ns=[1024, 2 ** 40, 2 ** 48, 2 ** 50], kinds=['u8', 'u64', 'u256', 'h256', 'var'],
                      final_roots=True)
     cs += root_paths(rng, tier)
-    return cs
+    return (cs) + huge_repeat(rng, tier)
 
 
 def root_paths(rng, tier):
@@ -379,7 +379,7 @@ def fam_C05(rng, tier):
     out += hist_cases(rng, tier, 'history-bounds', scale(tier, 30, 150), 3, 40,
                       weights={'push': 20, 'bulk': 8, 'bulk_bad': 3, 'tovector': 4, 'tolist': 4},
                       invalid_rate=0.15, preds=('bounds',), ns=SMALL_N)
-    return out
+    return (out) + huge_repeat(rng, tier)
 
 
 def build_paths(r, kind, N, xs, slot0, lines):
@@ -806,7 +806,7 @@ def fam_C09(rng, tier):
             lines += ['apply 0', 'apply 9', 'eq 0 9', 'root 0', 'root 9']
             out.append(Case(lines, 'intra-rebase', (), {'cfg': cfg}))
     out += hash_valued(rng, tier)
-    return out
+    return (out) + huge_repeat(rng, tier)
 
 
 def hash_valued(rng, tier):
@@ -844,6 +844,60 @@ def hash_valued(rng, tier):
                 if k == 'list':
                     lines += ['pop 0 4', 'pop 9 4', 'tovec 0', 'eq 0 9', 'root 0', 'root 9']
                 out.append(Case(lines, 'intra-hash-valued-elements', ('wellformed',), {'cfg': (kind, N, m)}))
+    # a partially filled subtree on the right edge, and earlier a FULL smaller subtree whose elements
+    # are the hashes of the right edge's inner nodes (zero hashes for its padding): the two agree on
+    # the hash, and for some choices also on the number of elements they hold
+    zh = [bytes(32)]
+    for _ in range(8):
+        zh.append(hashlib.sha256(zh[-1] + zh[-1]).digest())
+    for kind in ('h256', 'u256'):
+        for N in (8, 16, 32, 9, 33):
+            for _ in range(scale(tier, 3, 8)):
+                r = sub(rng)
+                m = r.choice(MAPS)
+                cap = 8 if N <= 9 else (16 if N <= 16 else 32)
+                cap = min(cap, 1 << (N.bit_length() - 1)) if N not in (8, 16, 32) else cap
+                d = r.choice([dd for dd in (2, 3, 4) if 2 ** dd < cap] or [2])
+                t = r.randint(1, 2 ** d - 1)                     # elements on the right edge
+                j = r.randint(1, d - 1) if d > 1 else 1           # level whose nodes become elements
+                starts = [q for q in range(2 ** d, cap, 2 ** d)]  # the edge subtree is not the first one
+                if not starts:
+                    continue
+                st = r.choice(starts)
+                n = st + t
+                if n > N:
+                    continue
+                tail = [bytes(r.randrange(256) for _ in range(32)) if r.random() < 0.8 else bytes(32) for _ in range(t)]
+                layer = tail + [None] * (2 ** d - t)
+
+                def up(layer, lvl):
+                    nxt = []
+                    for q in range(0, len(layer), 2):
+                        a, b = layer[q], layer[q + 1]
+                        if a is None and b is None:
+                            nxt.append(None)
+                        else:
+                            nxt.append(hashlib.sha256((a if a is not None else zh[lvl]) + (b if b is not None else zh[lvl])).digest())
+                    return nxt
+                for lvl in range(j):
+                    layer = up(layer, lvl)
+                nodes = [x if x is not None else zh[j] for x in layer]   # 2^(d-j) hashes
+                xs = [bytes(r.randrange(256) for _ in range(32)) for _ in range(n)]
+                xs[st:] = tail
+                w = len(nodes)
+                p0 = r.choice([q for q in range(0, st, w) if q + w <= st])
+                xs[p0:p0 + w] = nodes
+                hx = [x.hex() for x in xs]
+                k = 'vec' if (n == N and r.random() < 0.5) else 'list'
+                lines = [cfg_line((kind, N, m)), 'new 0 %s %s' % (k, ' '.join(hx)), 'clone 0 8', 'intra 0',
+                         'len 0', 'tovec 0', 'wf 0', 'eq 0 8', 'root 0', 'root 8',
+                         'new 9 %s %s' % (k, ' '.join(hx)), 'eq 0 9', 'root 9', 'dump 0']
+                for i in range(n + 1):
+                    lines.append('get 0 %d' % i)
+                if k == 'list':
+                    lines += ['pop 0 %d' % w, 'pop 9 %d' % w, 'tovec 0', 'eq 0 9', 'root 0', 'root 9', 'push 0 ' + hx[0],
+                              'apply 0', 'tovec 0', 'root 0']
+                out.append(Case(lines, 'intra-hash-valued-right-edge', ('wellformed', 'memo'), {'cfg': (kind, N, m)}))
     return out
 
 
@@ -905,7 +959,7 @@ def fam_C10(rng, tier):
         out.append(Case(lines, 'path-copying-conversion', ('flush_bound',), {'cfg': cfg, 'k': len(keys), 'len': N,
                                                                              'dump_line': 'dump 1 3'}))
     out += readers_vs_hasher(rng, tier)
-    return out
+    return (out) + huge_repeat(rng, tier)
 
 
 def fam_C11(rng, tier):
@@ -990,7 +1044,7 @@ def fam_C11(rng, tier):
                         lines.append('get 1 %d' % (i - n))
                 lines += ['push 1 %s' % val(r, kind), 'apply 1', 'len 1', 'root 1', 'get 1 %d' % max(ln - n, 0)]
             out.append(Case(lines, 'level16-pop', (), {'cfg': cfg, 'len': ln}))
-    return out
+    return (out) + huge_repeat(rng, tier)
 
 
 def fixed_size(kind):
@@ -1101,7 +1155,7 @@ def fam_C12(rng, tier):
             for b in space:
                 lines += ['drop 0', 'unssz 0 %s %s' % (k, hexs(b)), 'sszifok 0 %s' % hexs(b), 'len 0']
             out.append(Case(lines, 'ssz-exhaustive-small', ('ssz_strict',), {'cfg': ('u8', N, 'maxvec')}))
-    return out
+    return (out) + unit_elements(rng, tier)
 
 
 def fam_C13(rng, tier):
@@ -1188,7 +1242,7 @@ def fam_C15(rng, tier):
             out.append(Case(lines, 'faults' + ('-huge-N' if huge else ''), ('wellformed', 'error_atomic'),
                             {'cfg': cfg}))
     out += motif_histories(rng, tier)
-    return out
+    return (out) + unit_elements(rng, tier)
 
 
 def fam_C16(rng, tier):
@@ -1249,14 +1303,85 @@ def fam_C16(rng, tier):
             for o in ops:
                 lines.append('T %d %s' % (t, o))
         lines.append('conc-end')
-        # the memo state after the block does not depend on the schedule: whatever was hashed by some
-        # thread is memoised now (observed before anything is hashed again)
-        lines.append('dump 0 1 2 3')
+        # whatever was hashed by some thread is memoised now (observed before anything is hashed again).
+        # The memo state after the block does not depend on the schedule (ConcFinal.lean) unless some
+        # thread rebased: rebase_on copies the memo it finds at that instant into the nodes it
+        # rebuilds, and what a later root computation of the rebased handle still has to visit — also
+        # inside the base's nodes it now shares — depends on that. Then the dump is only checked by the
+        # predicates on the implementation's side, not compared with the model's one schedule.
+        had_rebase = any(' rebase ' in l for l in lines if l.startswith('T '))
+        lines.append('dumpi 0 1 2 3' if had_rebase else 'dump 0 1 2 3')
         for h in shared:
             lines += ['root %d' % h, 'tovec %d' % h]
         lines.append('dump 0 1 2 3')
         out.append(Case(lines, 'threads-%d' % nthreads, ('memo', 'no_deadlock', 'conc_memoises'), {'cfg': cfg, 'threads': nthreads}))
     out += conc_heavy(rng, tier)
+    return out
+
+
+def unit_elements(rng, tier):
+    """elements of SSZ length zero (a container without fields): the decoder must answer non-empty
+    input with its ZeroLengthItem error, never with a division by zero; the in-memory operations
+    work as for any other element."""
+    out = []
+    for N in (1, 2, 4, 5, 8):
+        for m in MAPS:
+            r = sub(rng)
+            lines = [cfg_line(('unit', N, m)), 'sszmeta list', 'sszmeta vec']
+            for b in (b'\0', b'\0\0', bytes(4), bytes(r.randrange(256) for _ in range(r.randint(1, 9)))):
+                for k in ('list', 'vec'):
+                    lines += ['unssz 0 %s %s' % (k, hexs(b))]
+            lines += ['unssz 0 list -', 'len 0', 'unssz 1 vec -']
+            n = r.randint(0, N)
+            lines += [('new 2 list ' + ' '.join(['-'] * n)).rstrip(), 'len 2', 'tovec 2', 'root 2', 'iter 2']
+            if n < N:
+                lines += ['push 2 -', 'apply 2', 'len 2', 'root 2']
+            lines += ['fromelem 3 -', 'len 3', 'root 3', 'new 4 list ' + ' '.join(['-'] * (N + 1)), 'repeat 5 %d -' % N, 'len 5',
+                      'root 5', 'intra 5', 'root 5', 'pop 5 1', 'len 5', 'de 6 list ' + ' '.join(['-'] * min(N, 3)), 'len 6']
+            out.append(Case(lines, 'unit-elements', ('wellformed',), {'cfg': ('unit', N, m)}))
+    return out
+
+
+def huge_repeat(rng, tier):
+    """collections far too long to materialise (2^23 .. 2^63 equal elements; a DAG of a few dozen
+    nodes in the implementation and in the model, `n` copies of `v` symbolically on the spec side):
+    lengths, reads at the ends, roots against the closed-form SSZ root, self-deduplication, aligned
+    front removal, over-capacity requests."""
+    out = []
+    cfgs = [('u64', 2 ** 50), ('h256', 2 ** 48), ('u64', 2 ** 40), ('h256', 2 ** 40), ('u8', 2 ** 40),
+            ('u256', 2 ** 40), ('var', 2 ** 40), ('u64', 2 ** 63), ('h256', 2 ** 63), ('u64', 2 ** 60)]
+    for kind, N in cfgs * scale(tier, 1, 3):
+        r = sub(rng)
+        m = r.choice(MAPS)
+        pfk = PF[kind] or 1
+        lines = [cfg_line((kind, N, m))]
+        for rnd in range(3):
+            e = r.randint(23, N.bit_length() - 1)
+            n = r.choice([2 ** e, 2 ** e + 1, 2 ** e - 1, 2 ** e + pfk, N, N - 1, r.randrange(2 ** 23, N + 1),
+                          (r.randrange(2 ** 23, N + 1) // pfk) * pfk])
+            n = max(2 ** 23, min(n, N))
+            v = val(r, kind, pzero=0.2)
+            lines += ['repeat 0 %d %s' % (n, v), 'len 0', 'isempty 0', 'pending 0', 'get 0 0', 'get 0 %d' % (n - 1),
+                      'get 0 %d' % n, 'get 0 %d' % r.randrange(n)]
+            if r.random() < 0.5:
+                lines.append('root 0')
+            lines += ['intra 0', 'len 0', 'get 0 %d' % (n - 1), 'root 0', 'dump 0']
+            # front removal aligned with a high level; the last subtree of the suffix holds only a few
+            # elements (pop_front counts the elements of the last subtree one by one)
+            maxe = N.bit_length() - 1
+            L = r.randint(max(23, maxe - 12), maxe - 1) if maxe > 23 else 22
+            q = r.randint(1, max(1, min(8, N // 2 ** L - 1)))
+            rem = r.choice([1, 2, 3, pfk, pfk + 1, 2 * pfk, 40])
+            n2 = q * 2 ** L + rem
+            if n2 <= N:
+                mm = r.choice([m_ for m_ in range(1, q + 1) if m_ % 2 == 1])   # odd: the level is exactly L
+                k = mm * 2 ** L
+                lines += ['repeat 4 %d %s' % (n2, v), 'root 4' if r.random() < 0.5 else 'len 4', 'clone 4 1',
+                          'pop 1 %d' % k, 'len 1', 'pending 1', 'root 1', 'get 1 0', 'get 1 %d' % (n2 - k - 1),
+                          'get 1 %d' % (n2 - k), 'len 4', 'root 4', 'repeat 2 %d %s' % (n2 - k, v), 'root 2', 'dump 1 2']
+            lines += ['repeat 3 %d %s' % (N + r.choice([1, 2, 2 ** 20]), v), 'pop 0 %d' % (n + 1), 'len 0', 'apply 0',
+                      'pending 0']
+        out.append(Case(lines, 'huge-repeat', ('memo',), {'cfg': (kind, N, m)}))
     return out
 
 
@@ -1335,7 +1460,7 @@ def conc_heavy(rng, tier):
                     lines.append('T %d %s' % (t, o))
             lines.append('conc-end')
             if kind != 'nest':
-                lines.append('dump 0 1')
+                lines.append('dumpi 0 1')      # (threads rebase here: see fam_C16)
             lines += ['root 0', 'root 1', 'len 0']
         out.append(Case(lines, 'threads-heavy-' + kind, ('no_deadlock', 'memo', 'conc_memoises'), {'cfg': cfg, 'threads': 16}))
     out += readers_vs_hasher(rng, tier)
@@ -1430,6 +1555,39 @@ def fam_C17(rng, tier):
             lines += ['lvnodes 0 %d 10' % i, 'pushnodes 1 %d %d' % (depth, level), 'bfinish 1 2', 'tlen 2',
                       'thash 2', 'new 3 list ' + ' '.join(xs[i:]), 'treeof 3 4', 'teq 2 4']
         out.append(Case(lines, 'builder-push-node', (), {'cfg': cfg}))
+    # every slot of a level filled by whole-subtree pushes (pop_front never fills the last one), then
+    # one push too many
+    for kind in KINDS:
+        pf = PF[kind] or 1
+        pd = int_log(pf)
+        r = sub(rng)
+        lines = [cfg_line((kind, 8, 'btree'))]
+        slot = 10
+        for depth in (1, 2, 3, 4):
+            for L in sorted({pd, pd + 1, depth + pd - 1, depth + pd}):
+                if L < pd or L > depth + pd or (L == 0 and pd > 0):
+                    continue
+                cnt = 2 ** (depth + pd - L)
+                if cnt > 16 or 2 ** L > 64:
+                    continue
+                # a full subtree of 2^L elements
+                vals_ = [val(r, kind) for _ in range(2 ** L)]
+                lines.append('bnew 1 %d 0' % (L - pd))
+                lines += ['bpush 1 %s' % x for x in vals_]
+                lines.append('bfinish 1 %d' % slot)
+                lines.append('bnew 2 %d %d' % (depth, L))
+                fill = r.choice([cnt, cnt, cnt - 1]) if cnt > 1 else cnt
+                for _ in range(fill):
+                    lines.append('bpushnode 2 %d %d' % (slot, 2 ** L))
+                if fill == cnt:
+                    lines += ['bnew 3 %d %d' % (depth, L)]
+                    for _ in range(cnt):
+                        lines.append('bpushnode 3 %d %d' % (slot, 2 ** L))
+                    lines.append('bpushnode 3 %d %d' % (slot, 2 ** L))      # one too many: BuilderFull
+                lines += ['bfinish 2 %d' % (slot + 1), 'tlen %d' % (slot + 1), 'thash %d' % (slot + 1),
+                          'tget %d %d %d' % (slot + 1, fill * 2 ** L - 1, depth), 'tget %d %d %d' % (slot + 1, fill * 2 ** L, depth)]
+                slot += 2
+        out.append(Case(lines, 'builder-push-node-full-level', (), {'cfg': (kind, 8, 'btree')}))
     return out
 
 
